@@ -49,8 +49,14 @@ class World:
             if ap in self.used:
                 return
             if ap in self.files:
-                self.eval_content(ap)
+                # named = used: a use() of the same file from inside it (directly or through another file) is a no-op;
+                # a file that fails has not been used
                 self.used.add(ap)
+                try:
+                    self.eval_content(ap)
+                except ModelErr:
+                    self.used.discard(ap)
+                    raise
                 return
         raise ModelErr("file_not_found")
 
@@ -160,6 +166,8 @@ def _run(ctx, rng, quick, scale, exe, base):
             for p in paths:     # files may also exist in directories that are not on the use path
                 if rng.random() < 0.45:
                     nested = rng.choice(names[fi + 1:] + ["missing.chai"]) if (fi < 2 and rng.random() < 0.4) else None
+                    if rng.random() < 0.15:
+                        nested = rng.choice(names)        # any file, itself and earlier ones included: include cycles
                     if nested == "missing.chai" and rng.random() < 0.5:
                         nested = None
                     spec = {"id": "%s@%s" % (name, os.path.basename(p[:-1])), "nested": nested, "fail": rng.random() < 0.12}
@@ -249,9 +257,9 @@ def _run(ctx, rng, quick, scale, exe, base):
                 ctx.sample({"kind": "U", "ops": ops, "expected": exp})
     ctx.rule = ("F = one file content (prefixes of length 0..12 of 36 snippets, random cuts of shipped scripts, +-BOM, CRLF, shebang, trailing NULs, "
                 "partial BOMs) evaluated via eval_file and via eval on two fresh engines; M = missing file; U = history of 3..11 use()/eval_file() "
-                "calls (C++ and script level) over 3 logging files in up to 3 search directories with nested and failing includes, checked against a "
+                "calls (C++ and script level) over 3 logging files in up to 3 search directories with nested, failing and cyclic includes (a file using itself or an earlier one), checked against a "
                 "model of the used set; all cases are non-trivial; distinct by content")
-    ctx.assumptions += ["cyclic includes are not generated (use() records a file only after it was evaluated)",
+    ctx.assumptions += ["a use() of a file from inside its own evaluation is a no-op (the file has been named)",
                         "a file whose evaluation fails is not recorded as used (as implemented; the property does not say)"]
 
 
